@@ -26,7 +26,7 @@ Section StepG.
   Notation evok := (evok stop).
 
   (* ------------------------------------------------------------ small helpers *)
-  Lemma kinv_snoc a (l : list (Z * Z)) x g : kinv a (l ++ [(x, g)]) = kinv a l || (a =? x).
+  Lemma kinv_snoc a (l : list (Z * Z)) (x : node) g : kinv a (l ++ [(x, g)]) = kinv a l || (a =? x).
   Proof. unfold kinv, zmem. rewrite map_app, existsb_app. simpl. rewrite orb_false_r. reflexivity. Qed.
 
   Lemma b2z_orb_excl a b : a = false \/ b = false -> b2z (a || b) = b2z a + b2z b.
@@ -72,5 +72,343 @@ Section StepG.
     assert (D2 : {4 <= t_state (T y)} + {~ 4 <= t_state (T y)}) by (destruct (Z_le_gt_dec 4 (t_state (T y))); [left; assumption|right; lia]).
     apply and_dec; [apply and_dec; [apply bool_dec|apply and_dec; assumption]|].
     apply or_dec; [apply and_dec|]; apply Z.eq_dec.
+  Qed.
+
+  (* when the gain table of y is complete (counting the gain being consumed), every neighbour runs and
+     has sent its gain of this cycle *)
+  Lemma full_pos y x m l1 l2 : rn y = true -> pd x y = l1 ++ m :: l2 -> 4 <= t_state (S y) ->
+    (forall x', In x' (nbr y) -> b2z (kinv x' (t_ng (S y))) + b2z ((x' =? x) && (kind_of m =? 4)) = 1) ->
+    forall w, In w (nbr y) -> rn w = true /\
+      ((t_cycle (S w) = t_cycle (S y) /\ 4 <= t_state (S w)) \/ (t_cycle (S w) = t_cycle (S y) + 1 /\ t_state (S w) = 1)).
+  Proof.
+    intros Ry Hp Hk4 Hfull w Hw. apply nbr_pos4; try assumption.
+    specialize (Hfull w Hw). pose proof (cnt_nonneg 4 (pd w y)) as Hn.
+    destruct (Z.eq_dec w x) as [Ew|Ew];
+      [subst w; rewrite Z.eqb_refl in Hfull|apply Z.eqb_neq in Ew; rewrite Ew in Hfull]; simpl in Hfull;
+      [|clear - Hfull Hn; lia].
+    destruct (Z.eq_dec (kind_of m) 4) as [E|E];
+      [rewrite E in Hfull|apply Z.eqb_neq in E; rewrite E in Hfull]; simpl in Hfull; [|clear - Hfull Hn; lia].
+    pose proof (in_cnt_pos _ _ (in_pd _ _ _ _ _ _ Hp)) as Hc. rewrite E in Hc. clear - Hc Hfull. lia.
+  Qed.
+
+  Lemma full_store y (x : node) g : good y (S y) -> In x (nbr y) -> kinv x (t_ng (S y)) = false ->
+    length (t_ng (S y) ++ [(x, g)]) = length (nbr y) ->
+    forall x', In x' (nbr y) ->
+      kinv x' (t_ng (S y) ++ [(x, g)]) = true /\
+      b2z (kinv x' (t_ng (S y))) + b2z ((x' =? x) && (4 =? 4)) = 1.
+  Proof.
+    intros Gy Hxy Hkv Hlen x' Hx'. destruct (g_ng _ _ _ _ Gy) as [Nd Inc].
+    assert (Hin : In x' (map fst (t_ng (S y) ++ [(x, g)]))).
+    { apply (full_in _ (nbr y)); [| |rewrite map_length; exact Hlen|exact Hx'].
+      - rewrite map_app. simpl. apply NoDup_snoc; [exact Nd|]. apply kinv_false. exact Hkv.
+      - rewrite map_app. simpl. intros z Hz. apply in_app_or in Hz as [Hz|[<-|[]]]; [apply Inc; exact Hz|exact Hxy]. }
+    apply kinv_In in Hin. split; [exact Hin|]. rewrite kinv_snoc in Hin. change (4 =? 4) with true. rewrite andb_true_r.
+    destruct (Z.eqb_spec x' x) as [->|Hn]; [rewrite Hkv; reflexivity|].
+    rewrite orb_false_r in Hin. rewrite Hin. reflexivity.
+  Qed.
+
+  (* ============================================================ end of a cycle *)
+  (* y is in state gain, not committed, and the consumed gain completes its table; or y is in state go
+     and consumes the go / no-go of its partner *)
+  Lemma finish_ok y x m l1 l2 s2 vs :
+    rn y = true -> pd x y = l1 ++ m :: l2 ->
+    ((t_state (S y) = 4 /\ t_committed (S y) = false /\ kind_of m = 4) \/ (t_state (S y) = 5 /\ kind_of m = 5)) ->
+    (forall x', In x' (nbr y) -> b2z (kinv x' (t_ng (S y))) + b2z ((x' =? x) && (kind_of m =? 4)) = 1) ->
+    skel s2 = (1, t_cycle (S y) + 1, t_fin (S y) + (if doneb (t_cycle (S y) + 1) then 1 else 0), [], [], [], None, false, false, 0) ->
+    InvA rn (updS S y s2)
+         (pd_step pd x y (l1 ++ l2) (map (fun t => (t, M2Value vs)) (if doneb (t_cycle (S y) + 1) then [] else nbr y))) /\
+    forall x', In x' (nbr y) ->
+      cnt (t_state (S y))
+          (pd_step pd x y (l1 ++ l2) (map (fun t => (t, M2Value vs)) (if doneb (t_cycle (S y) + 1) then [] else nbr y)) x' y) = 0.
+  Proof.
+    intros Ry Hp Hcase Hfull K2.
+    set (outs := map (fun t => (t, M2Value vs)) (if doneb (t_cycle (S y) + 1) then [] else nbr y)).
+    pose proof (pending_nbr x y _ _ _ Hp) as Hxy.
+    pose proof (act_of d x y Hxy) as Hact.
+    pose proof (i_good _ _ _ _ _ HI y Ry Hact) as Gy.
+    assert (Hk4 : 4 <= t_state (S y) <= 5) by (destruct Hcase as [(H & _)|(H & _)]; lia).
+    assert (Hkm : kind_of m = t_state (S y)) by (destruct Hcase as [(H & _ & H')|(H & H')]; congruence).
+    assert (Hm1 : (kind_of m =? 1) = false) by (apply Z.eqb_neq; lia).
+    assert (Hm2 : (kind_of m =? 2) = false) by (apply Z.eqb_neq; lia).
+    assert (Hm3 : (kind_of m =? 3) = false) by (apply Z.eqb_neq; lia).
+    pose proof (g_c _ _ _ _ Gy) as Cy.
+    pose proof (full_pos y x m l1 l2 Ry Hp ltac:(lia) Hfull) as Hpos.
+    unfold skel in K2. injection K2 as Kst Kcy Kfi Knv Kof Kng Kpa Kco Kor Kpg.
+    assert (Hd : doneb (t_cycle (S y)) = false).
+    { destruct (doneb (t_cycle (S y))) eqn:E; [|reflexivity]. pose proof (g_done _ _ _ _ Gy E). lia. }
+    assert (Fy : t_fin (S y) = 0) by (rewrite (g_fin _ _ _ _ Gy), Hd; reflexivity).
+    assert (G2 : good y s2).
+    { constructor; rewrite ?Kst, ?Kcy, ?Kfi, ?Knv, ?Kof, ?Kng, ?Kpa, ?Kco, ?Kor, ?Kpg; simpl; try lia; try discriminate; auto.
+      - rewrite Fy. destruct (doneb (t_cycle (S y) + 1)); reflexivity.
+      - right. replace (t_cycle (S y) + 1 - 1) with (t_cycle (S y)) by lia. exact Hd.
+      - split; [constructor|apply incl_nil_l].
+      - split; [constructor|split; [apply incl_nil_l|constructor]].
+      - split; [constructor|apply incl_nil_l].
+      - intros _. destruct (nbr y); [congruence|simpl; lia]. }
+    assert (Hout : forall w, In w (nbr y) -> to_y2 w outs = if doneb (t_cycle (S y) + 1) then [] else [M2Value vs]).
+    { intros w Hw. unfold outs. destruct (doneb (t_cycle (S y) + 1)); [reflexivity|].
+      etransitivity; [apply (to_y2_map (fun t => (t, M2Value vs)) (nbr y) w (fun t => eq_refl) (nbrs_nodup d y))|].
+      rewrite (proj2 (zmem_In w (nbr y)) Hw). reflexivity. }
+    assert (Hout0 : forall w, ~ In w (nbr y) -> to_y2 w outs = []).
+    { intros w Hw. unfold outs. destruct (doneb (t_cycle (S y) + 1)); [reflexivity|].
+      etransitivity; [apply (to_y2_map (fun t => (t, M2Value vs)) (nbr y) w (fun t => eq_refl) (nbrs_nodup d y))|].
+      destruct (zmem w (nbr y)) eqn:E; [apply zmem_In in E; contradiction|reflexivity]. }
+    (* state go: the consumed message is the go of the partner *)
+    assert (H5 : t_state (S y) = 5 ->
+                 t_committed (S y) = true /\ t_partner (S y) = Some x /\ cnt 5 (pd x y) = 1 /\ sentGo S x y).
+    { intros E5. destruct Hcase as [(H & _)|(_ & Hm5)]; [lia|].
+      pose proof (in_cnt_pos _ _ (in_pd _ _ _ _ _ _ Hp)) as Hc. rewrite Hm5 in Hc.
+      pose proof (i_pair _ _ _ _ _ HI x y Hxy) as P.
+      destruct (go_dec S y x) as [[A B]|N].
+      - pose proof (p_Go1 _ _ _ _ _ P A B). destruct A as (A1 & A2 & A3). auto.
+      - pose proof (p_Go0 _ _ _ _ _ P N). lia. }
+    assert (HInv : InvA rn (updS S y s2) (pd_step pd x y (l1 ++ l2) outs)).
+    { apply (step_frame d stop rn S pd y s2 x (l1 ++ l2) outs HI Ry Hact Hxy G2); [| |exact Hout0].
+      - (* ---------------- receiver pairs (x', y) *)
+        intros x' Hx'. pose proof (nbr_ne _ _ Hx') as Hx'y.
+        destruct (pd_step_recv pd x y l1 m l2 outs x' Hp Hx'y) as [Hc Hi].
+        destruct (Hpos x' Hx') as [Rx' Px'].
+        pose proof (i_good _ _ _ _ _ HI x' Rx' (act_of d y x' (nbrs_sym d y x' Hx'))) as Gx'.
+        destruct (tabf d stop y _ x' Gy Hx') as (T1 & _ & T3 & _ & _ & _ & _ & _).
+        specialize (T1 ltac:(lia)). specialize (T3 ltac:(lia)).
+        pose proof (Hfull x' Hx') as Hf.
+        destruct (i_pair _ _ _ _ _ HI x' y Hx') as [V O G A1 A0 Go1 Go0 PO PS PA L Ans].
+        unf. rewrite Ry, Rx' in *.
+        constructor; unf;
+          rewrite ?Ry, ?Rx', ?updS_same, ?(updS_other S y s2 x' Hx'y), ?Kst, ?Kcy, ?Kfi, ?Knv, ?Kof, ?Kng, ?Kpa, ?Kco, ?Kor, ?Hc.
+        + rewrite Hm1, andb_false_r. change (b2z (kinv x' [])) with 0. change (b2z false) with 0. clear - V T1. lia.
+        + rewrite Hm2, andb_false_r. change (b2z (kino x' [])) with 0. change (b2z false) with 0. clear - O T3. lia.
+        + change (b2z (kinv x' [])) with 0. clear - G Hf. lia.
+        + intros (Hc0 & _). discriminate.
+        + intros _. rewrite Hm3, andb_false_r. change (b2z false) with 0. rewrite A0; [reflexivity|].
+          intros [(_ & _ & Hc0) _]. clear - Hc0 Hk4. lia.
+        + intros (Hc0 & _). discriminate.
+        + intros _. destruct Hcase as [(E4 & Hnc & Em)|(E5 & Em)].
+          * rewrite Em. change (4 =? 5) with false. rewrite andb_false_r. change (b2z false) with 0.
+            rewrite Go0; [reflexivity|]. intros [(Hc0 & _) _]. congruence.
+          * destruct (H5 E5) as (C1 & C2 & C3 & C4). rewrite Em. change (5 =? 5) with true. rewrite andb_true_r.
+            destruct (Z.eqb_spec x' x) as [->|Hn].
+            -- rewrite C3. reflexivity.
+            -- change (b2z false) with 0. rewrite Go0; [reflexivity|]. intros [(_ & Hc0 & _) _]. congruence.
+        + intros f os Hin. apply (PO f os). apply Hi. exact Hin.
+        + intros f os Hc0. discriminate.
+        + intros a v g0 Hin. apply (PA a v g0). apply Hi. exact Hin.
+        + intros Lc Lp. left. specialize (L Lc Lp).
+          assert (HH : t_committed (S y) = true /\ t_partner (S y) = Some x' /\ t_cycle (S y) = t_cycle (S x')).
+          { destruct L as [[La _]|[La Lb]]; [exfalso; clear - La Px'; lia|].
+            destruct (t_offerer (S x')); [destruct Lb as (_ & B2 & B3)|destruct Lb as (_ & B2 & [B3|B3])]; auto.
+            exfalso. clear - B3 Hk4. lia. }
+          destruct HH as (HH1 & HH2 & HH3).
+          destruct Hcase as [(E4 & Hnc & Em)|(E5 & Em)]; [congruence|].
+          destruct (H5 E5) as (C1 & C2 & C3 & C4).
+          assert (x' = x) by congruence. subst x'.
+          destruct C4 as [[C4 C5]|C4]; [split; [clear - C4; lia|exact C5]|exfalso].
+          destruct Px' as [[P1 _]|[_ P2]]; [clear - P1 C4; lia|].
+          destruct (g_fl1 _ _ _ _ Gx' P2) as (_ & F2 & _). congruence.
+        + intros Ho Hpp H4. right. destruct Px' as [[P1 _]|[_ P2]]; [clear - P1; lia|clear - P2 H4; lia].
+      - (* ---------------- sender pairs (y, w) *)
+        intros w Hw. pose proof (nbr_ne _ _ Hw) as Hwy.
+        destruct (Hpos w Hw) as [Rw Pw].
+        pose proof (nbrs_sym d y w Hw) as Hyw.
+        pose proof (i_good _ _ _ _ _ HI w Rw (act_of d y w Hyw)) as Gw.
+        destruct (tabf d stop w _ y Gw Hyw) as (_ & _ & U3 & _ & _ & _ & U7 & _).
+        destruct (i_pair _ _ _ _ _ HI y w Hyw) as [V O G A1 A0 Go1 Go0 PO PS PA L Ans].
+        pose proof (p_L _ _ _ _ _ (i_pair _ _ _ _ _ HI w y Hw)) as Lw.
+        assert (Hcn : forall k, cnt k (pd_step pd x y (l1 ++ l2) outs y w) =
+                                cnt k (pd y w) + (if doneb (t_cycle (S y) + 1) then 0 else b2z (1 =? k))).
+        { intros k. rewrite pd_step_send, cnt_app, (Hout w Hw).
+          destruct (doneb (t_cycle (S y) + 1)); [rewrite cnt_nil; reflexivity|rewrite cnt_cons, cnt_nil; simpl kind_of; lia]. }
+        assert (Hin' : forall m', In m' (pd_step pd x y (l1 ++ l2) outs y w) -> In m' (pd y w) \/ m' = M2Value vs).
+        { intros m'. rewrite pd_step_send, (Hout w Hw). intros H. apply in_app_or in H as [H|H]; [left; exact H|].
+          destruct (doneb (t_cycle (S y) + 1)); [destruct H|destruct H as [<-|[]]; right; reflexivity]. }
+        unf. rewrite Ry, Rw in *.
+        pose proof (proj1 (b2z_leb 2 (t_state (S y))) ltac:(lia)) as B2y.
+        pose proof (proj1 (b2z_leb 4 (t_state (S y))) ltac:(lia)) as B4y.
+        assert (C2 : cnt 2 (pd y w) = 0).
+        { pose proof (cnt_nonneg 2 (pd y w)) as Hn. destruct Pw as [[P1 P2]|[P1 P2]].
+          - specialize (U3 ltac:(lia)). clear - O U3 B2y P1 Hn. lia.
+          - clear - O U7 B2y P1 Hn. lia. }
+        assert (C3 : cnt 3 (pd y w) = 0).
+        { apply A0. intros [(_ & _ & Hc0) _]. clear - Hc0 Pw. lia. }
+        constructor; unf;
+          rewrite ?Ry, ?Rw, ?updS_same, ?(updS_other S y s2 w Hwy), ?Kst, ?Kcy, ?Kfi, ?Knv, ?Kof, ?Kng, ?Kpa, ?Kco, ?Kor, ?Hcn.
+        + change (b2z (1 =? 1)) with 1. destruct (doneb (t_cycle (S y) + 1)); clear - V; lia.
+        + change (b2z (1 =? 2)) with 0. change (b2z (2 <=? 1)) with 0.
+          destruct (doneb (t_cycle (S y) + 1)); clear - O B2y; lia.
+        + change (b2z (1 =? 4)) with 0. change (b2z (4 <=? 1)) with 0.
+          destruct (doneb (t_cycle (S y) + 1)); clear - G B4y; lia.
+        + intros _ Hc0. clear - Hc0. lia.
+        + intros _. rewrite C3. destruct (doneb (t_cycle (S y) + 1)); reflexivity.
+        + intros E Sg. assert (Ec : t_cycle (S w) = t_cycle (S y)) by (clear - Sg; lia).
+          assert (H1 : cnt 5 (pd y w) = 1).
+          { destruct Hcase as [(E4 & Hnc & _)|(E5 & _)].
+            - exfalso. destruct E as (E1 & E2 & E3). specialize (Lw E1 E2).
+              destruct Lw as [[La _]|[_ Lb]]; [clear - La Ec; lia|].
+              destruct (t_offerer (S w)); [destruct Lb as (_ & B & _); congruence|].
+              destruct Lb as (_ & _ & [B|B]); [clear - B E4; lia|congruence].
+            - apply Go1; [exact E|]. left. split; [symmetry; exact Ec|exact E5]. }
+          rewrite H1. destruct (doneb (t_cycle (S y) + 1)); reflexivity.
+        + intros N. assert (H0 : cnt 5 (pd y w) = 0).
+          { apply Go0. intros [E Sg]. destruct Hcase as [(E4 & _)|(E5 & _)].
+            - clear - Sg E4 Pw. lia.
+            - apply N. split; [exact E|]. right. clear - Sg Pw. lia. }
+          rewrite H0. destruct (doneb (t_cycle (S y) + 1)); reflexivity.
+        + intros f os Hin. destruct (Hin' _ Hin) as [H|H]; [exfalso|discriminate].
+          pose proof (in_cnt_pos _ _ H) as Hc0. simpl kind_of in Hc0. clear - Hc0 C2. lia.
+        + intros f os Hc0. exfalso. clear - Hc0 Pw. lia.
+        + intros a v g0 Hin. destruct (Hin' _ Hin) as [H|H]; [exfalso|discriminate].
+          pose proof (in_cnt_pos _ _ H) as Hc0. simpl kind_of in Hc0. clear - Hc0 C3. lia.
+        + intros Hc0. discriminate.
+        + intros Hc0. discriminate. }
+    split; [exact HInv|].
+    intros x' Hx'. pose proof (nbr_ne _ _ Hx') as Hx'y.
+    destruct (Hpos x' Hx') as [Rx' Px'].
+    pose proof (i_pair _ _ _ _ _ HInv x' y Hx') as P.
+    destruct Hcase as [(E4 & _)|(E5 & _)].
+    - rewrite E4. pose proof (p_G _ _ _ _ _ P) as E. unfold SG, CG in E.
+      rewrite Ry, Rx', updS_same, (updS_other S y s2 x' Hx'y), Kcy, Kng in E. change (b2z (kinv x' [])) with 0 in E.
+      pose proof (b2z_leb 4 (t_state (S x'))) as [B1 B2].
+      destruct Px' as [[P1 P2]|[P1 P2]]; [specialize (B1 P2); clear - E P1 B1; lia|].
+      specialize (B2 ltac:(lia)). clear - E P1 B2. lia.
+    - rewrite E5. apply (p_Go0 _ _ _ _ _ P). intros [(Hc0 & _) _]. rewrite updS_same, Kco in Hc0. discriminate.
+  Qed.
+
+  (* ============================================================ go message *)
+  Lemma step_Go y x go l1 l2 : rn y = true -> pd x y = l1 ++ M2Go go :: l2 -> t_state (S y) = 5 ->
+    step_ok y x (M2Go go) l1 l2.
+  Proof.
+    intros Ry Hp Hk s2 o2 e2 Hm.
+    pose proof (pending_nbr x y _ _ _ Hp) as Hxy.
+    pose proof (act_of d x y Hxy) as Hact.
+    pose proof (i_good _ _ _ _ _ HI y Ry Hact) as Gy.
+    unfold mstep, on_msg in Hm. simpl kind_of in Hm. rewrite Hk in Hm. simpl negb in Hm. cbv iota in Hm.
+    destruct (hgo0_spec d stop y (S y) go) as (s' & vs & pre & E & Vp & K & Po).
+    rewrite E in Hm. injection Hm as <- <- <-.
+    assert (Hfull : forall x', In x' (nbr y) ->
+              b2z (kinv x' (t_ng (S y))) + b2z ((x' =? x) && (kind_of (M2Go go) =? 4)) = 1).
+    { intros x' Hx'. destruct (tabf d stop y _ x' Gy Hx') as (_ & _ & _ & _ & T5 & _).
+      rewrite (T5 Hk). simpl kind_of. rewrite andb_false_r. reflexivity. }
+    destruct (finish_ok y x (M2Go go) l1 l2 s' vs Ry Hp (or_intror (conj Hk eq_refl)) Hfull K) as [HInv Hz].
+    split; [exact HInv|]. split; [|split; [exact Po|]].
+    - skel_inv K. apply evok_finish; assumption.
+    - intros _. exact Hz.
+  Qed.
+
+  (* ============================================================ gain message, table complete, committed *)
+  Lemma commit_ok y x g l1 l2 s2 p go :
+    rn y = true -> pd x y = l1 ++ M2Gain g :: l2 -> t_state (S y) = 4 ->
+    kinv x (t_ng (S y)) = false -> length (t_ng (S y) ++ [(x, g)]) = length (nbr y) ->
+    t_committed (S y) = true -> t_partner (S y) = Some p ->
+    skel s2 = (5, t_cycle (S y), t_fin (S y), t_nv (S y), t_offers (S y), t_ng (S y) ++ [(x, g)], t_partner (S y),
+               t_committed (S y), t_offerer (S y), t_pgain (S y)) ->
+    InvA rn (updS S y s2) (pd_step pd x y (l1 ++ l2) [(p, M2Go go)]) /\
+    forall x', In x' (nbr y) -> cnt 4 (pd_step pd x y (l1 ++ l2) [(p, M2Go go)] x' y) = 0.
+  Proof.
+    intros Ry Hp Hk Hkv Hlen Hcy Hpy K2.
+    set (outs := [(p, M2Go go)]).
+    pose proof (pending_nbr x y _ _ _ Hp) as Hxy.
+    pose proof (act_of d x y Hxy) as Hact.
+    pose proof (i_good _ _ _ _ _ HI y Ry Hact) as Gy.
+    pose proof (full_store y x g Gy Hxy Hkv Hlen) as Hfs.
+    assert (Hfull : forall x', In x' (nbr y) ->
+              b2z (kinv x' (t_ng (S y))) + b2z ((x' =? x) && (kind_of (M2Gain g) =? 4)) = 1)
+      by (intros x' Hx'; apply (Hfs x' Hx')).
+    pose proof (full_pos y x _ l1 l2 Ry Hp ltac:(lia) Hfull) as Hpos.
+    destruct (g_com _ _ _ _ Gy Hcy) as (Hpg & p' & Hp' & Hpn). assert (p' = p) by congruence. subst p'.
+    destruct (g_ng _ _ _ _ Gy) as [Nd Inc].
+    assert (Nd1 : NoDup (map fst (t_ng (S y) ++ [(x, g)])) /\ incl (map fst (t_ng (S y) ++ [(x, g)])) (nbr y)).
+    { rewrite map_app. simpl. split.
+      - apply NoDup_snoc; [exact Nd|]. apply kinv_false. exact Hkv.
+      - intros z Hz. apply in_app_or in Hz as [Hz|[<-|[]]]; [apply Inc; exact Hz|exact Hxy]. }
+    unfold skel in K2. injection K2 as Kst Kcy Kfi Knv Kof Kng Kpa Kco Kor Kpg.
+    assert (G2 : good y s2).
+    { destruct Gy. constructor; rewrite ?Kst, ?Kcy, ?Kfi, ?Knv, ?Kof, ?Kng, ?Kpa, ?Kco, ?Kor, ?Kpg; auto; try lia. }
+    assert (Hout : forall w, to_y2 w outs = if p =? w then [M2Go go] else []).
+    { intros w. unfold to_y2, outs. simpl. destruct (p =? w); reflexivity. }
+    assert (HInv : InvA rn (updS S y s2) (pd_step pd x y (l1 ++ l2) outs)).
+    { apply (step_frame d stop rn S pd y s2 x (l1 ++ l2) outs HI Ry Hact Hxy G2).
+      - (* ---------------- receiver pairs (x', y) *)
+        intros x' Hx'. pose proof (nbr_ne _ _ Hx') as Hx'y.
+        destruct (pd_step_recv pd x y l1 (M2Gain g) l2 outs x' Hp Hx'y) as [Hc Hi].
+        destruct (Hpos x' Hx') as [Rx' Px'].
+        destruct (Hfs x' Hx') as [Hf1 Hf].
+        destruct (i_pair _ _ _ _ _ HI x' y Hx') as [V O G A1 A0 Go1 Go0 PO PS PA L Ans].
+        unf. rewrite Ry, Rx' in *.
+        constructor; unf;
+          rewrite ?Ry, ?Rx', ?updS_same, ?(updS_other S y s2 x' Hx'y), ?Kst, ?Kcy, ?Kfi, ?Knv, ?Kof, ?Kng, ?Kpa, ?Kco, ?Kor, ?Hc;
+          simpl kind_of.
+        + rewrite andb_false_r. change (b2z false) with 0. clear - V. lia.
+        + rewrite andb_false_r. change (b2z false) with 0. clear - O. lia.
+        + rewrite Hf1. change (b2z true) with 1. clear - G Hf. lia.
+        + intros (_ & _ & Hc0). clear - Hc0. lia.
+        + intros _. rewrite andb_false_r. change (b2z false) with 0. rewrite A0; [reflexivity|].
+          intros [(_ & _ & Hc0) _]. clear - Hc0 Hk. lia.
+        + intros (E1 & E2 & _) Sg. rewrite andb_false_r. change (b2z false) with 0.
+          rewrite Go1; [reflexivity| |exact Sg]. split; [exact E1|split; [exact E2|clear - Hk; lia]].
+        + intros N. rewrite andb_false_r. change (b2z false) with 0. rewrite Go0; [reflexivity|].
+          intros [(E1 & E2 & _) Sg]. apply N. split; [|exact Sg]. split; [exact E1|split; [exact E2|lia]].
+        + intros f os Hin. apply (PO f os). apply Hi. exact Hin.
+        + intros f os Hc0. discriminate.
+        + intros a v g0 Hin. apply (PA a v g0). apply Hi. exact Hin.
+        + intros Lc Lp. destruct (L Lc Lp) as [A|[B C]]; [left; exact A|right; split; [exact B|]].
+          destruct (t_offerer (S x')); [exact C|]. destruct C as (C1 & C2 & _).
+          split; [exact C1|split; [exact C2|right; exact Hcy]].
+        + intros Ho Hpp H4. destruct (Ans Ho Hpp H4) as [[B1 B2]|B]; [left; split; [exact B1|lia]|right; exact B].
+      - (* ---------------- sender pairs (y, w) *)
+        intros w Hw. pose proof (nbr_ne _ _ Hw) as Hwy.
+        destruct (Hpos w Hw) as [Rw Pw].
+        pose proof (nbrs_sym d y w Hw) as Hyw.
+        destruct (i_pair _ _ _ _ _ HI y w Hyw) as [V O G A1 A0 Go1 Go0 PO PS PA L Ans].
+        pose proof (p_L _ _ _ _ _ (i_pair _ _ _ _ _ HI w y Hw)) as Lw.
+        assert (Hcn : forall k, cnt k (pd_step pd x y (l1 ++ l2) outs y w) =
+                                cnt k (pd y w) + (if p =? w then b2z (5 =? k) else 0)).
+        { intros k. rewrite pd_step_send, cnt_app, (Hout w).
+          destruct (p =? w); [rewrite cnt_cons, cnt_nil; simpl kind_of; lia|rewrite cnt_nil; reflexivity]. }
+        assert (Hin' : forall m', In m' (pd_step pd x y (l1 ++ l2) outs y w) -> In m' (pd y w) \/ m' = M2Go go).
+        { intros m'. rewrite pd_step_send, (Hout w). intros H. apply in_app_or in H as [H|H]; [left; exact H|].
+          destruct (p =? w); [destruct H as [<-|[]]; right; reflexivity|destruct H]. }
+        unf. rewrite Ry, Rw in *.
+        pose proof (proj1 (b2z_leb 2 (t_state (S y))) ltac:(lia)) as B2y.
+        pose proof (proj1 (b2z_leb 4 (t_state (S y))) ltac:(lia)) as B4y.
+        assert (NS : ~ ((t_cycle (S y) = t_cycle (S w) /\ t_state (S y) = 5) \/ t_cycle (S y) = t_cycle (S w) + 1))
+          by (clear - Hk Pw; lia).
+        constructor; unf;
+          rewrite ?Ry, ?Rw, ?updS_same, ?(updS_other S y s2 w Hwy), ?Kst, ?Kcy, ?Kfi, ?Knv, ?Kof, ?Kng, ?Kpa, ?Kco, ?Kor, ?Hcn.
+        + change (b2z (5 =? 1)) with 0. destruct (p =? w); clear - V; lia.
+        + change (b2z (5 =? 2)) with 0. change (b2z (2 <=? 5)) with 1. destruct (p =? w); clear - O B2y; lia.
+        + change (b2z (5 =? 4)) with 0. change (b2z (4 <=? 5)) with 1. destruct (p =? w); clear - G B4y; lia.
+        + intros E _. change (b2z (5 =? 3)) with 0. rewrite A1; [destruct (p =? w); reflexivity|exact E|clear - Hk; lia].
+        + intros N. change (b2z (5 =? 3)) with 0. rewrite A0; [destruct (p =? w); reflexivity|].
+          intros [E _]. apply N. split; [exact E|lia].
+        + intros (E1 & E2 & E3) _. specialize (Lw E1 E2).
+          destruct Lw as [[La _]|[Lc Lb]]; [exfalso; clear - La Pw; lia|].
+          assert (Hpw : t_partner (S y) = Some w)
+            by (destruct (t_offerer (S w)); [destruct Lb as (_ & _ & B)|destruct Lb as (_ & B & _)]; exact B).
+          assert (w = p) by congruence. subst w. rewrite Z.eqb_refl. change (b2z (5 =? 5)) with 1.
+          rewrite Go0; [reflexivity|]. intros [_ Sg']. exact (NS Sg').
+        + intros N. change (b2z (5 =? 5)) with 1. destruct (Z.eqb_spec p w) as [Epw|Hn].
+          * exfalso. subst w. apply N. specialize (L Hcy Hpy).
+            destruct L as [[_ La]|[Lc Lb]]; [clear - La Hk; lia|].
+            destruct Pw as [[P1 P2]|[P1 P2]]; [|exfalso; clear - P1 Lc; lia].
+            assert (HH : t_committed (S p) = true /\ t_partner (S p) = Some y).
+            { destruct (t_offerer (S y)); [destruct Lb as (_ & B2 & B3); auto|].
+              destruct Lb as (_ & B2 & [B3|B3]); [exfalso; clear - B3 P2; lia|auto]. }
+            destruct HH as [HH1 HH2].
+            split; [split; [exact HH1|split; [exact HH2|exact P2]]|left; split; [symmetry; exact P1|reflexivity]].
+          * rewrite Go0; [reflexivity|]. intros [_ Sg']. exact (NS Sg').
+        + intros f os Hin. destruct (Hin' _ Hin) as [H|H]; [exact (PO f os H)|discriminate].
+        + exact PS.
+        + intros a v g0 Hin. destruct (Hin' _ Hin) as [H|H]; [exact (PA a v g0 H)|discriminate].
+        + intros Lc Lp. destruct (L Lc Lp) as [[_ La]|B]; [exfalso; clear - La Hk; lia|right; exact B].
+        + intros Ho Hpp _. apply Ans; [exact Ho|exact Hpp|clear - Hk; lia].
+      - intros w Hw. rewrite Hout. destruct (Z.eqb_spec p w) as [<-|Hn]; [contradiction|reflexivity]. }
+    split; [exact HInv|].
+    intros x' Hx'. pose proof (nbr_ne _ _ Hx') as Hx'y.
+    destruct (Hpos x' Hx') as [Rx' Px']. destruct (Hfs x' Hx') as [Hf1 _].
+    pose proof (p_G _ _ _ _ _ (i_pair _ _ _ _ _ HInv x' y Hx')) as E. unfold SG, CG in E.
+    rewrite Ry, Rx', updS_same, (updS_other S y s2 x' Hx'y), Kcy, Kng, Hf1 in E. change (b2z true) with 1 in E.
+    pose proof (b2z_leb 4 (t_state (S x'))) as [B1 B2].
+    destruct Px' as [[P1 P2]|[P1 P2]]; [specialize (B1 P2); clear - E P1 B1; lia|].
+    specialize (B2 ltac:(lia)). clear - E P1 B2. lia.
   Qed.
 End StepG.
